@@ -728,7 +728,10 @@ def _read_set(ctx: ReaderContext) -> lset.PersistentSet:
     assert start == "{"
 
     def set_if_valid(s: Collection) -> lset.PersistentSet:
-        coll_set = set(s)
+        try:
+            coll_set = set(s)
+        except TypeError as e:
+            raise ctx.syntax_error("Set elements must be hashable") from e
         if len(s) != len(coll_set):
             dupes = ", ".join(
                 lrepr(k) for k, v in collections.Counter(s).items() if v > 1
@@ -846,7 +849,13 @@ def _read_namespaced_map(ctx: ReaderContext) -> lmap.PersistentMap:
                 "be specified as keywords without namespaces"
             )
 
-    _consume_whitespace(ctx)
+    char = _consume_whitespace(ctx)
+    if char == "":
+        raise ctx.eof_error("Unexpected EOF in namespaced map")
+    if char != "{":
+        raise ctx.syntax_error(
+            f"Unexpected char '{char}'; expected opening '{{' for namespaced map"
+        )
 
     return _read_map(ctx, namespace=map_ns)
 
@@ -978,7 +987,12 @@ def _read_unicode_escape_seq(ctx: ReaderContext) -> str:
             f"Unicode escape sequence must be exactly 4 or 8 hex digits; got '{unicode_hex}'"
         )
 
-    return chr(int(unicode_hex, base=16))
+    try:
+        return chr(int(unicode_hex, base=16))
+    except (ValueError, OverflowError) as e:
+        raise ctx.syntax_error(
+            f"Unicode escape sequence out of range: '{unicode_hex}'"
+        ) from e
 
 
 def _read_str(ctx: ReaderContext, raw_string: bool = False) -> str:
@@ -1105,7 +1119,7 @@ def _read_byte_str(ctx: ReaderContext) -> bytes:
         if char == "":
             raise ctx.eof_error("Unexpected EOF in byte string")
         if ord(char) < 1 or ord(char) > 127:
-            raise ctx.eof_error("Byte strings must contain only ASCII characters")
+            raise ctx.syntax_error("Byte strings must contain only ASCII characters")
         if char == "\\":
             char = reader.next_char()
             escape_char = _BYTES_ESCAPE_CHARS.get(char, None)
@@ -1733,6 +1747,8 @@ def _resolve_tagged_literal(
             return data_reader(v)
         except SyntaxError as e:
             raise ctx.syntax_error(e.message).with_traceback(e.__traceback__) from None
+        except Exception as e:
+            raise ctx.syntax_error(f"Invalid form for data reader tag #{s}") from e
     elif s.ns is None and "." in s.name:
         return _load_record_or_type(ctx, s, v)
     else:
@@ -1813,7 +1829,8 @@ def _read_reader_macro(ctx: ReaderContext) -> LispReaderForm:
         return read_macro(ctx)
     elif begin_ns_name_chars.match(char):
         s = _read_sym(ctx, is_reader_macro_sym=True)
-        assert isinstance(s, sym.Symbol)
+        if not isinstance(s, sym.Symbol):
+            raise ctx.syntax_error(f"Reader macro tags must be symbols, not '{lrepr(s)}'")
         if s.ns is None:
             if s.name == "b":
                 return _read_byte_str(ctx)
